@@ -63,6 +63,7 @@ def _method():
 def strategy(tier):
     spec = worlds.schema_spec(tier, depth=1, width=5 if tier == "quick" else 8,
                               allow=("schema", "configtype", "schemalist", "virtual", "featureflag"))
+    spec = st.tuples(spec, st.booleans()).map(lambda t: dict(t[0], dynamic=t[0].get("dynamic") or t[1]))
     return st.fixed_dictionaries({
         "spec": spec, "methods": st.lists(_method(), max_size=3), "input": st.sampled_from(["schema", "config", "configtype"]),
         "class_name": st.sampled_from(["Thing", "MyConfig", "_Cfg", "C1"]),
@@ -172,6 +173,9 @@ def run_case(case, R):
         R.label("input:" + how)
         cname = case["class_name"]
         cfg = schema(key_filename=os.path.join(d, "k"))
+        if spec.get("dynamic"):
+            cfg.runtime_extra = 5  # a field added at run time to a dynamic configuration stays with that configuration
+            R.label("dynamic-runtime-field")
         if how == "schema":
             target, kwargs = schema, {"class_name": cname}
         elif how == "config":
